@@ -16,6 +16,8 @@ use vref::chacha::{Layout, Stream};
 pub enum LAct {
     Seek { ty: IntTy, pos: u128, neg: bool },
     Apply(usize),
+    /// through the infallible StreamCipher::apply_keystream (only issued when the request fits)
+    ApplyPlain(usize),
     CurPos(IntTy),
 }
 impl LAct {
@@ -23,6 +25,7 @@ impl LAct {
         match self {
             LAct::Seek { ty, pos, neg } => json!({"op":"try_seek","ty":ty.name(),"pos":pos.to_string(),"neg":neg}),
             LAct::Apply(n) => json!({"op":"try_apply_keystream","n":n}),
+            LAct::ApplyPlain(n) => json!({"op":"apply_keystream","n":n}),
             LAct::CurPos(ty) => json!({"op":"try_current_pos","ty":ty.name()}),
         }
     }
@@ -30,6 +33,7 @@ impl LAct {
         match v["op"].as_str().unwrap() {
             "try_seek" => LAct::Seek { ty: IntTy::parse(v["ty"].as_str().unwrap()), pos: v["pos"].as_str().unwrap().parse().unwrap(), neg: v["neg"].as_bool().unwrap() },
             "try_apply_keystream" => LAct::Apply(v["n"].as_u64().unwrap() as usize),
+            "apply_keystream" => LAct::ApplyPlain(v["n"].as_u64().unwrap() as usize),
             _ => LAct::CurPos(IntTy::parse(v["ty"].as_str().unwrap())),
         }
     }
@@ -82,6 +86,9 @@ impl<K: Kind> Live<K> {
         for n in [0usize, 1, 5, 59, 63, 64, 65, 70, 128, 191, 256, 257, 320, 513] {
             menu.push(LAct::Apply(n));
         }
+        for n in [64usize, 70] {
+            menu.push(LAct::ApplyPlain(n));
+        }
         for ty in [IntTy::U64, IntTy::U8, IntTy::U128, IntTy::I32] {
             menu.push(LAct::CurPos(ty));
         }
@@ -126,6 +133,27 @@ impl<K: Kind> Live<K> {
                             return Err(("seek-in-range-refused".into(), format!("try_seek::<{}>({}) returned Err for an in-range position", ty.name(), p)));
                         }
                         Ok(None)
+                    }
+                }
+            }
+            LAct::ApplyPlain(n) => {
+                let n = *n;
+                let p = match pos {
+                    Some(p) if p + n as u128 <= limit => p,
+                    _ => return Ok(pos), // would be refused (apply_keystream panics then) or position unknown: not issued
+                };
+                let pat = data_pattern(n);
+                let mut buf = pat.clone();
+                match guarded(|| c.apply_keystream(&mut buf[..])) {
+                    Err(e) => Err((format!("apply_keystream-panic:{}", panic_class(&e)), format!("apply_keystream({} bytes) at position {} panicked although the request fits: {}", n, p, e))),
+                    Ok(()) => {
+                        let ks = self.keystream(p, n);
+                        for i in 0..n {
+                            if buf[i] != pat[i] ^ ks[i] {
+                                return Err(("keystream-mismatch".into(), format!("apply_keystream({}) at position {}: byte {} got {:02x} want {:02x}", n, p, i, buf[i], pat[i] ^ ks[i])));
+                            }
+                        }
+                        Ok(Some(p + n as u128))
                     }
                 }
             }
@@ -272,7 +300,7 @@ fn run_kind<K: Kind>(rep: &mut Report, depth: usize) {
 pub fn run_into(rep: &mut Report, tier: &str) {
     let depth: usize = std::env::var("VH_LIVE_DEPTH").ok().and_then(|s| s.parse().ok()).unwrap_or(if tier == "thorough" { 4 } else { 3 });
     crate::for_each_kind!(run_kind, rep, depth);
-    rep.rule.push_str(&format!(" || live-object phase: every history of {} calls over a sparse menu (try_seek to 0 / 2^31 / 2^32 / 2^38 / 2^64 bytes with offsets -130,-65,-64,-63,-1,0,1,5,63,64,65,130 through u64, a few values through u8,u16,u32,i32,u128,usize incl. -1 and 2^64; try_apply_keystream of 0,1,5,59,63,64,65,70,128,191,256,257,320,513 bytes; try_current_pos through 4 integer types) is executed from scratch on a real, never reconstructed cipher object for all 7 types and two nonces, with the same oracle", depth));
+    rep.rule.push_str(&format!(" || live-object phase: every history of {} calls over a sparse menu (try_seek to 0 / 2^31 / 2^32 / 2^38 / 2^64 bytes with offsets -130,-65,-64,-63,-1,0,1,5,63,64,65,130 through u64, a few values through u8,u16,u32,i32,u128,usize incl. -1 and 2^64; try_apply_keystream of 0,1,5,59,63,64,65,70,128,191,256,257,320,513 bytes; apply_keystream (the infallible entry point) of 64 and 70 bytes when the request fits; try_current_pos through 4 integer types) is executed from scratch on a real, never reconstructed cipher object for all 7 types and two nonces, with the same oracle", depth));
 }
 
 pub fn run_alone(prop: &str, tier: &str, config: &str) -> Report {
